@@ -15,9 +15,10 @@ pub struct Case {
 
 pub const BASES: [&str; 14] =
     ["", "a", "ab", "a-b", "a--b", "a-b-c", "-a", "é", "A", "a1", "a.b", "a+", "a*", "[a]"];
-/// letter-free bounds (KF-1 cannot interfere)
-pub const BOUNDS: [&str; 12] =
-    ["", "0", "1", "1.0", "1.5", "2", "1.0nb1", "1.0rc1", "2.0beta1", "10", "1.0.1", "0.9"];
+/// bounds without plain letters (KF-1 cannot interfere); some sort below the empty version
+pub const BOUNDS: [&str; 17] = [
+    "", "0", "1", "1.0", "1.5", "2", "1.0nb1", "1.0rc1", "2.0beta1", "10", "1.0.1", "0.9", "0rc1", "alpha1", "0.0pre3", "rc", "nb1",
+];
 pub const OPTXT: [&str; 4] = ["<", "<=", ">", ">="];
 
 fn pattern_strategy() -> BoxedStrategy<(String, String)> {
@@ -152,7 +153,7 @@ pub fn check(c: &Case, obs: &mut Obs) -> Result<(), String> {
 /// complete enumeration: bases x operator shapes x bounds^k  x  base relations x versions
 fn enumerate(tier: Tier) -> Box<dyn Iterator<Item = Case>> {
     let bounds: Vec<&'static str> = match tier {
-        Tier::Quick => vec!["", "1", "1.0nb1", "2"],
+        Tier::Quick => vec!["", "1", "1.0nb1", "2", "0rc1"],
         Tier::Thorough => BOUNDS.to_vec(),
     };
     let bases: Vec<&'static str> = match tier {
@@ -160,8 +161,8 @@ fn enumerate(tier: Tier) -> Box<dyn Iterator<Item = Case>> {
         Tier::Thorough => BASES.to_vec(),
     };
     let versions: Vec<&'static str> = match tier {
-        Tier::Quick => vec!["", "1", "1.0nb1", "1.0rc1", "2", "3"],
-        Tier::Thorough => vec!["", "0", "1", "1.0", "1.0nb1", "1.0rc1", "1.5", "2", "2.0beta1", "10", "3"],
+        Tier::Quick => vec!["", "1", "1.0nb1", "1.0rc1", "2", "3", "0rc1", "alpha"],
+        Tier::Thorough => vec!["", "0", "1", "1.0", "1.0nb1", "1.0rc1", "1.5", "2", "2.0beta1", "10", "3", "0rc1", "alpha", "0.0pre3", "nb2"],
     };
     // operator shapes: 0, 1, 2 and 3 operators
     let mut shapes: Vec<Vec<usize>> = vec![vec![]];
